@@ -26,10 +26,8 @@ def insert (m : AMap α) (k : Nat) (v : α) : AMap α :=
     else if k = k' then (k, v) :: rest
     else (k', v') :: insert rest k v
 
-def erase (m : AMap α) (k : Nat) : AMap α :=
-  match m with
-  | [] => []
-  | (k', v') :: rest => if k' = k then rest else (k', v') :: erase rest k
+/-- remove the entry with key `k` (keys are unique in a well-formed map) -/
+def erase (m : AMap α) (k : Nat) : AMap α := m.filter (fun kv => !decide (kv.1 = k))
 
 def keys (m : AMap α) : List Nat := m.map (·.1)
 def values (m : AMap α) : List α := m.map (·.2)
